@@ -8,6 +8,7 @@ package main
 import (
 	"context"
 	"encoding/json"
+	"errors"
 	"fmt"
 	"reflect"
 	"strings"
@@ -321,7 +322,7 @@ func stepComponent(g *G, n int, opts map[string]string) *Out {
 			as = g.aspec(opts)
 			st = g.astate(as)
 			if g.chance(0.75) {
-				pending = g.messageFor(as, st.Node)
+				pending = g.messageFor(as, st.Node, st)
 			}
 		}
 		addStepCase(o, g, as, st, pending, nilCtl, opts["mode"])
@@ -345,6 +346,13 @@ func addStepCase(o *Out, g *G, as *ASpec, st *AState, pending interface{}, nilCt
 	loop := false
 	if cur := as.Nodes[st.Node]; cur != nil && cur.Action.hasLoop() {
 		loop = true
+	}
+	if mode == "c06" && g.chance(0.12) {
+		// the documented switch for permanent bindings turned off (hosts may): what the engine is given stays intact
+		// all the same; only the snapshot / identity observations of this case are used (mode c06 compares nothing else)
+		core.Exp_PermanentBindings = false
+		defer func() { core.Exp_PermanentBindings = true }()
+		o.count("permanent-bindings-off")
 	}
 	wrapGuards(spec)
 	resetGuardLog()
@@ -430,6 +438,12 @@ type walkObs struct {
 	Strides   []*strideObs  `json:"strides"`
 	Remaining []interface{} `json:"remaining"`
 	Stopped   string        `json:"stopped"`
+	// what Walked's own accessors say (hosts use these, not the strides): To(), DoEmitted
+	GoTo      *stateObs     `json:"to_accessor"`
+	GoEmitted []interface{} `json:"emitted_accessor"`
+	// the accessors agree with the strides (To = the last state reached; From = where the first stride began;
+	// DoEmitted = the strides' emissions in order, and it stops at the callback's first error)
+	Accessors bool `json:"accessors_agree"`
 }
 
 type walkRun struct {
@@ -514,6 +528,46 @@ func runWalk(spec *core.Spec, st *core.State, msgs []interface{}, ctl *core.Cont
 		for _, m := range raw.Remaining {
 			wo.Remaining = append(wo.Remaining, m)
 		}
+		func() {
+			defer func() {
+				if p := recover(); p != nil {
+					wo.Accessors = false
+				}
+			}()
+			wo.Accessors = true
+			wo.GoTo = obsState(raw.To())
+			raw.DoEmitted(func(x interface{}) error {
+				wo.GoEmitted = append(wo.GoEmitted, x)
+				return nil
+			})
+			var lastTo *stateObs
+			for _, sd := range wo.Strides {
+				if sd.To != nil {
+					lastTo = sd.To
+				}
+			}
+			if canon(lastTo) != canon(wo.GoTo) || canon(wo.emitted()) != canon(append([]interface{}{}, wo.GoEmitted...)) {
+				wo.Accessors = false
+			}
+			if from := raw.From(); len(wo.Strides) > 0 && canon(obsState(from)) != canon(wo.Strides[0].From) || len(wo.Strides) == 0 && from != nil {
+				wo.Accessors = false
+			}
+			// DoEmitted stops at the first error of the callback
+			if n := len(wo.GoEmitted); n >= 2 {
+				calls := 0
+				stop := errors.New("stop")
+				err := raw.DoEmitted(func(x interface{}) error {
+					calls++
+					if calls == n-1 {
+						return stop
+					}
+					return nil
+				})
+				if calls != n-1 || err != stop {
+					wo.Accessors = false
+				}
+			}
+		}()
 		r.W = wo
 	}
 	return r
@@ -558,13 +612,12 @@ func (w *walkObs) final(start *AState) string {
 	if start.Bs == nil {
 		bs = "{}"
 	}
-	for _, sd := range w.Strides {
-		if sd.To != nil {
-			node = sd.To.Node
-			bs = canon(sd.To.Bs)
-			if sd.To.Bs == nil {
-				bs = "{}"
-			}
+	// as a host computes it: Walked.To(), or the state it had when the walk reached none
+	if w.GoTo != nil {
+		node = w.GoTo.Node
+		bs = canon(w.GoTo.Bs)
+		if w.GoTo.Bs == nil {
+			bs = "{}"
 		}
 	}
 	return node + "/" + bs
@@ -662,6 +715,10 @@ func walkComponent(g *G, n int, opts map[string]string) *Out {
 		}
 		props := g.genProps()
 		loop := as.hasLoop()
+		if g.mode == "c06" && g.chance(0.12) {
+			core.Exp_PermanentBindings = false
+			o.count("permanent-bindings-off")
+		}
 		bpChance := 0.3
 		if g.mode == "c05" {
 			bpChance = 0.55
@@ -706,6 +763,7 @@ func walkComponent(g *G, n int, opts map[string]string) *Out {
 				}
 			}
 		}
+		core.Exp_PermanentBindings = true
 		gor, ok := r1.coq()
 		if !ok {
 			gor = "GWalkUnrep"
@@ -735,6 +793,10 @@ func walkComponent(g *G, n int, opts map[string]string) *Out {
 			default:
 				o.count("strides:3+")
 			}
+		}
+		if r1.W != nil && !r1.W.Accessors {
+			splitAgree = false // Walked's accessors contradict its strides: the final state / emissions a host sees are wrong
+			o.count("accessors-disagree")
 		}
 		if splitTried > 0 {
 			o.count("split-compared")
